@@ -2,9 +2,9 @@
 EXTENDS Quorum, TLC, Json, Integers
 CONSTANT MaxN
 ASSUME AllGood == \A n \in 1..MaxN : Good(n) /\ Bounded(n)
-ASSUME Unique == \A n \in 1..MaxN : \A f \in 0..n : (5 * f + 1 <= n /\ n < 5 * f + 6) => f = F(n)
+ASSUME Unique == \A n \in 1..MaxN : \A f \in 0..n : (5 * f + 1 <= n /\ n < 5 * f + 6) => f = FaultyOf(n)
 \* T3 case table: n |-> (f, q, s) as computed by the specification
-ASSUME Table == \A n \in 1..MaxN : PrintT(<<"CASE", ToJson([n |-> n, f |-> F(n), q |-> Q(n), s |-> S(n)])>>)
+ASSUME Table == \A n \in 1..MaxN : PrintT(<<"CASE", ToJson([n |-> n, f |-> FaultyOf(n), q |-> QuorumOf(n), s |-> SubQuorumOf(n)])>>)
 VARIABLE x
 Init == x = 0
 Next == UNCHANGED x
